@@ -49,6 +49,10 @@ def run(ctx):
             mode = [first] + [rng.choice([None, "same" if first else None, "other"]) for _ in order[1:]]
             orbit_reqs.append(("c02_orbit", [[[r[0], r[1]] for r in rots], order, mode]))
             meta.append((want, first))
+            if rng.random() < 0.5:
+                # the same presentations to a subclass registry while a base-class object of the complex is alive
+                orbit_reqs.append(("c02_orbit", [[[r[0], r[1]] for r in rots], order, mode, True]))
+                meta.append((want, first))
         diffs += correspond(ctx, "identifiers", reqs)
         # the property itself on the implementation
         for rq, (want, first), r in zip(orbit_reqs, meta, run_impl(orbit_reqs)):
